@@ -340,4 +340,160 @@ theorem setaf_256 (v : Variant) (n : Int) (sv : Vars) :
     · simp [tparmV, run, step, execOp, skipOp, pad9, put, popInt, hd0, isDigit, Value.toInt, binop, readInt, ofBool, h8, h16, wrap64, two63, two64]
     · simp [tparmV, run, step, execOp, skipOp, pad9, put, popInt, hd0, isDigit, Value.toInt, binop, readInt, ofBool, h8, h16, wrap64, two63, two64]
 
+/-! ### closed forms of every distinct SetFg / SetBg / SetFgBg program of the database, for ALL colour indices -/
+
+/-- `ESC [ %? %p1 %{8} %< %t 3 %p1 %d %e %p1 %{16} %< %t 9 %p1 %{8} %- %d %e 38;5; %p1 %d %; m` -/
+def setaf256 : Bytes := [27,91,37,63,37,112,49,37,123,56,125,37,60,37,116,51,37,112,49,37,100,37,101,37,112,49,37,123,49,54,125,37,60,37,116,57,37,112,49,37,123,56,125,37,45,37,100,37,101,51,56,59,53,59,37,112,49,37,100,37,59,109]
+/-- the same with `4`, `10`, `48;5;` -/
+def setab256 : Bytes := [27,91,37,63,37,112,49,37,123,56,125,37,60,37,116,52,37,112,49,37,100,37,101,37,112,49,37,123,49,54,125,37,60,37,116,49,48,37,112,49,37,123,56,125,37,45,37,100,37,101,52,56,59,53,59,37,112,49,37,100,37,59,109]
+/-- foot: `38:5:` / `48:5:` -/
+def setafFoot : Bytes := [27,91,37,63,37,112,49,37,123,56,125,37,60,37,116,51,37,112,49,37,100,37,101,37,112,49,37,123,49,54,125,37,60,37,116,57,37,112,49,37,123,56,125,37,45,37,100,37,101,51,56,58,53,58,37,112,49,37,100,37,59,109]
+def setabFoot : Bytes := [27,91,37,63,37,112,49,37,123,56,125,37,60,37,116,52,37,112,49,37,100,37,101,37,112,49,37,123,49,54,125,37,60,37,116,49,48,37,112,49,37,123,56,125,37,45,37,100,37,101,52,56,58,53,58,37,112,49,37,100,37,59,109]
+/-- eterm-color: `ESC [ %p1 %{30} %+ %d m` and `ESC [ %p1 %'(' %+ %d m` -/
+def setafEterm : Bytes := [27,91,37,112,49,37,123,51,48,125,37,43,37,100,109]
+def setabEterm : Bytes := [27,91,37,112,49,37,39,40,39,37,43,37,100,109]
+/-- rxvt-unicode, sun-color: `ESC [ 38;5; %p1 %d m` / `ESC [ 48;5; %p1 %d m` -/
+def setafRxvt : Bytes := [27,91,51,56,59,53,59,37,112,49,37,100,109]
+def setabRxvt : Bytes := [27,91,52,56,59,53,59,37,112,49,37,100,109]
+/-- `ESC [ 3 %p1 %d m` / `ESC [ 4 %p1 %d m` -/
+def setafBasic : Bytes := [27,91,51,37,112,49,37,100,109]
+def setabBasic : Bytes := [27,91,52,37,112,49,37,100,109]
+/-- SetFgBg programs -/
+def fgbgBasic : Bytes := [27,91,51,37,112,49,37,100,59,52,37,112,50,37,100,109]
+def fgbg256 : Bytes := [27,91,37,63,37,112,49,37,123,56,125,37,60,37,116,51,37,112,49,37,100,37,101,37,112,49,37,123,49,54,125,37,60,37,116,57,37,112,49,37,123,56,125,37,45,37,100,37,101,51,56,59,53,59,37,112,49,37,100,37,59,59,37,63,37,112,50,37,123,56,125,37,60,37,116,52,37,112,50,37,100,37,101,37,112,50,37,123,49,54,125,37,60,37,116,49,48,37,112,50,37,123,56,125,37,45,37,100,37,101,52,56,59,53,59,37,112,50,37,100,37,59,109]
+def fgbgEterm : Bytes := [27,91,37,112,49,37,123,51,48,125,37,43,37,100,59,37,112,50,37,39,40,39,37,43,37,100,109]
+def fgbgFoot : Bytes := [27,91,37,63,37,112,49,37,123,56,125,37,60,37,116,51,37,112,49,37,100,37,101,37,112,49,37,123,49,54,125,37,60,37,116,57,37,112,49,37,123,56,125,37,45,37,100,37,101,51,56,58,53,58,37,112,49,37,100,37,59,59,37,63,37,112,50,37,123,56,125,37,60,37,116,52,37,112,50,37,100,37,101,37,112,50,37,123,49,54,125,37,60,37,116,49,48,37,112,50,37,123,56,125,37,45,37,100,37,101,52,56,58,53,58,37,112,50,37,100,37,59,109]
+def fgbgRxvt : Bytes := [27,91,51,56,59,53,59,37,112,49,37,100,59,52,56,59,53,59,37,112,50,37,100,109]
+
+def knownSetFg : List Bytes := [[], setafBasic, setaf256, setafFoot, setafEterm, setafRxvt]
+def knownSetBg : List Bytes := [[], setabBasic, setab256, setabFoot, setabEterm, setabRxvt]
+def knownSetFgBg : List Bytes := [[], fgbgBasic, fgbg256, fgbgFoot, fgbgEterm, fgbgRxvt]
+
+/-- Every built-in entry's SetFg / SetBg / SetFgBg is the empty string or one of the programs with a closed form
+below (kernel evaluation over the regenerated database; a new entry with another program re-opens this). -/
+theorem db_color_known : ∀ e ∈ Gen.db,
+    e.setFg ∈ knownSetFg ∧ e.setBg ∈ knownSetBg ∧ e.setFgBg ∈ knownSetFgBg := by
+  have h : (Gen.db.all fun e => knownSetFg.contains e.setFg && knownSetBg.contains e.setBg
+      && knownSetFgBg.contains e.setFgBg) = true := by decide +kernel
+  intro e he
+  have := List.all_eq_true.mp h e he
+  simpa [Bool.and_eq_true, and_assoc] using this
+
+/-- the selection a 256-colour program makes: `a n` for the basic eight, `b (n-8)` for the bright eight, else the
+extended form `c n` -/
+def sgr256 (a b c : Bytes) (n : Int) : Bytes :=
+  if n < 8 then a ++ itoa n else if n < 16 then b ++ itoa (wrap64 (n - 8)) else c ++ itoa n
+
+theorem tparm_empty (v : Variant) (ps : List Value) (sv : Vars) : tparmV v [] ps sv = ([], sv) := by
+  simp [tparmV, run]
+
+set_option maxRecDepth 4000 in
+theorem setaf_basic_cf (v : Variant) (n : Int) (sv : Vars) :
+    tparmV v setafBasic [.int n] sv = ([27, 91, 51] ++ itoa n ++ [109], sv) := by
+  simp [tparmV, setafBasic, run, step, execOp, pad9, put, popInt, hd0, isDigit, Value.toInt]
+
+set_option maxRecDepth 4000 in
+theorem setab_basic_cf (v : Variant) (n : Int) (sv : Vars) :
+    tparmV v setabBasic [.int n] sv = ([27, 91, 52] ++ itoa n ++ [109], sv) := by
+  simp [tparmV, setabBasic, run, step, execOp, pad9, put, popInt, hd0, isDigit, Value.toInt]
+
+set_option maxRecDepth 4000 in
+theorem setaf_rxvt (v : Variant) (n : Int) (sv : Vars) :
+    tparmV v setafRxvt [.int n] sv = ([27, 91, 51, 56, 59, 53, 59] ++ itoa n ++ [109], sv) := by
+  simp [tparmV, setafRxvt, run, step, execOp, pad9, put, popInt, hd0, isDigit, Value.toInt]
+
+set_option maxRecDepth 4000 in
+theorem setab_rxvt (v : Variant) (n : Int) (sv : Vars) :
+    tparmV v setabRxvt [.int n] sv = ([27, 91, 52, 56, 59, 53, 59] ++ itoa n ++ [109], sv) := by
+  simp [tparmV, setabRxvt, run, step, execOp, pad9, put, popInt, hd0, isDigit, Value.toInt]
+
+set_option maxRecDepth 4000 in
+/-- eterm-color foreground: `30 + n` -/
+theorem setaf_eterm (v : Variant) (n : Int) (sv : Vars) :
+    tparmV v setafEterm [.int n] sv = ([27, 91] ++ itoa (wrap64 (n + 30)) ++ [109], sv) := by
+  simp [tparmV, setafEterm, run, step, execOp, pad9, put, popInt, hd0, isDigit, Value.toInt, binop, readInt, wrap64,
+    two63, two64]
+
+set_option maxRecDepth 4000 in
+/-- eterm-color background: `40 + n` (`%'('` pushes 40) -/
+theorem setab_eterm (v : Variant) (n : Int) (sv : Vars) :
+    tparmV v setabEterm [.int n] sv = ([27, 91] ++ itoa (wrap64 (n + 40)) ++ [109], sv) := by
+  simp [tparmV, setabEterm, run, step, execOp, pad9, put, popInt, hd0, isDigit, Value.toInt, binop]
+
+set_option maxRecDepth 8000 in
+theorem setaf_256_cf (v : Variant) (n : Int) (sv : Vars) :
+    tparmV v setaf256 [.int n] sv = ([27, 91] ++ sgr256 [51] [57] [51,56,59,53,59] n ++ [109], sv) := by
+  by_cases h8 : n < 8
+  · simp [sgr256, tparmV, setaf256, run, step, execOp, skipOp, pad9, put, popInt, hd0, isDigit, Value.toInt, binop, readInt, ofBool, h8, wrap64, two63, two64]
+  · by_cases h16 : n < 16
+    · simp [sgr256, tparmV, setaf256, run, step, execOp, skipOp, pad9, put, popInt, hd0, isDigit, Value.toInt, binop, readInt, ofBool, h8, h16, wrap64, two63, two64]
+    · simp [sgr256, tparmV, setaf256, run, step, execOp, skipOp, pad9, put, popInt, hd0, isDigit, Value.toInt, binop, readInt, ofBool, h8, h16, wrap64, two63, two64]
+
+set_option maxRecDepth 8000 in
+theorem setab_256_cf (v : Variant) (n : Int) (sv : Vars) :
+    tparmV v setab256 [.int n] sv = ([27, 91] ++ sgr256 [52] [49,48] [52,56,59,53,59] n ++ [109], sv) := by
+  by_cases h8 : n < 8
+  · simp [sgr256, tparmV, setab256, run, step, execOp, skipOp, pad9, put, popInt, hd0, isDigit, Value.toInt, binop, readInt, ofBool, h8, wrap64, two63, two64]
+  · by_cases h16 : n < 16
+    · simp [sgr256, tparmV, setab256, run, step, execOp, skipOp, pad9, put, popInt, hd0, isDigit, Value.toInt, binop, readInt, ofBool, h8, h16, wrap64, two63, two64]
+    · simp [sgr256, tparmV, setab256, run, step, execOp, skipOp, pad9, put, popInt, hd0, isDigit, Value.toInt, binop, readInt, ofBool, h8, h16, wrap64, two63, two64]
+
+set_option maxRecDepth 8000 in
+theorem setaf_foot (v : Variant) (n : Int) (sv : Vars) :
+    tparmV v setafFoot [.int n] sv = ([27, 91] ++ sgr256 [51] [57] [51,56,58,53,58] n ++ [109], sv) := by
+  by_cases h8 : n < 8
+  · simp [sgr256, tparmV, setafFoot, run, step, execOp, skipOp, pad9, put, popInt, hd0, isDigit, Value.toInt, binop, readInt, ofBool, h8, wrap64, two63, two64]
+  · by_cases h16 : n < 16
+    · simp [sgr256, tparmV, setafFoot, run, step, execOp, skipOp, pad9, put, popInt, hd0, isDigit, Value.toInt, binop, readInt, ofBool, h8, h16, wrap64, two63, two64]
+    · simp [sgr256, tparmV, setafFoot, run, step, execOp, skipOp, pad9, put, popInt, hd0, isDigit, Value.toInt, binop, readInt, ofBool, h8, h16, wrap64, two63, two64]
+
+set_option maxRecDepth 8000 in
+theorem setab_foot (v : Variant) (n : Int) (sv : Vars) :
+    tparmV v setabFoot [.int n] sv = ([27, 91] ++ sgr256 [52] [49,48] [52,56,58,53,58] n ++ [109], sv) := by
+  by_cases h8 : n < 8
+  · simp [sgr256, tparmV, setabFoot, run, step, execOp, skipOp, pad9, put, popInt, hd0, isDigit, Value.toInt, binop, readInt, ofBool, h8, wrap64, two63, two64]
+  · by_cases h16 : n < 16
+    · simp [sgr256, tparmV, setabFoot, run, step, execOp, skipOp, pad9, put, popInt, hd0, isDigit, Value.toInt, binop, readInt, ofBool, h8, h16, wrap64, two63, two64]
+    · simp [sgr256, tparmV, setabFoot, run, step, execOp, skipOp, pad9, put, popInt, hd0, isDigit, Value.toInt, binop, readInt, ofBool, h8, h16, wrap64, two63, two64]
+
+set_option maxRecDepth 4000 in
+theorem fgbg_basic (v : Variant) (f b : Int) (sv : Vars) :
+    tparmV v fgbgBasic [.int f, .int b] sv = ([27, 91, 51] ++ itoa f ++ [59, 52] ++ itoa b ++ [109], sv) := by
+  simp [tparmV, fgbgBasic, run, step, execOp, pad9, put, popInt, hd0, isDigit, Value.toInt]
+
+set_option maxRecDepth 4000 in
+theorem fgbg_rxvt (v : Variant) (f b : Int) (sv : Vars) :
+    tparmV v fgbgRxvt [.int f, .int b] sv =
+      ([27, 91, 51, 56, 59, 53, 59] ++ itoa f ++ [59, 52, 56, 59, 53, 59] ++ itoa b ++ [109], sv) := by
+  simp [tparmV, fgbgRxvt, run, step, execOp, pad9, put, popInt, hd0, isDigit, Value.toInt]
+
+set_option maxRecDepth 4000 in
+theorem fgbg_eterm (v : Variant) (f b : Int) (sv : Vars) :
+    tparmV v fgbgEterm [.int f, .int b] sv =
+      ([27, 91] ++ itoa (wrap64 (f + 30)) ++ [59] ++ itoa (wrap64 (b + 40)) ++ [109], sv) := by
+  simp [tparmV, fgbgEterm, run, step, execOp, pad9, put, popInt, hd0, isDigit, Value.toInt, binop, readInt, wrap64,
+    two63, two64]
+
+set_option maxRecDepth 16000 in
+set_option maxHeartbeats 1000000 in
+theorem fgbg_256 (v : Variant) (f b : Int) (sv : Vars) :
+    tparmV v fgbg256 [.int f, .int b] sv =
+      ([27, 91] ++ sgr256 [51] [57] [51,56,59,53,59] f ++ [59] ++ sgr256 [52] [49,48] [52,56,59,53,59] b ++ [109], sv) := by
+  by_cases hf8 : f < 8 <;> by_cases hf16 : f < 16 <;> by_cases hb8 : b < 8 <;> by_cases hb16 : b < 16 <;>
+    first
+      | (exfalso; omega)
+      | simp [sgr256, tparmV, fgbg256, run, step, execOp, skipOp, pad9, put, popInt, hd0, isDigit, Value.toInt, binop,
+          readInt, ofBool, hf8, hf16, hb8, hb16, wrap64, two63, two64]
+
+set_option maxRecDepth 16000 in
+set_option maxHeartbeats 1000000 in
+theorem fgbg_foot (v : Variant) (f b : Int) (sv : Vars) :
+    tparmV v fgbgFoot [.int f, .int b] sv =
+      ([27, 91] ++ sgr256 [51] [57] [51,56,58,53,58] f ++ [59] ++ sgr256 [52] [49,48] [52,56,58,53,58] b ++ [109], sv) := by
+  by_cases hf8 : f < 8 <;> by_cases hf16 : f < 16 <;> by_cases hb8 : b < 8 <;> by_cases hb16 : b < 16 <;>
+    first
+      | (exfalso; omega)
+      | simp [sgr256, tparmV, fgbgFoot, run, step, execOp, skipOp, pad9, put, popInt, hd0, isDigit, Value.toInt, binop,
+          readInt, ofBool, hf8, hf16, hb8, hb16, wrap64, two63, two64]
+
 end Tcell.Props.C15
